@@ -156,7 +156,12 @@ impl WordLexer<'_, '_> {
 
         let param_start_index = self.index();
 
-        let c = self.peek_char().await?.unwrap();
+        let Some(c) = self.peek_char().await? else {
+            // End of input right after `${` or `${#`
+            let cause = SyntaxError::UnclosedParam { opening_location }.into();
+            let location = self.location().await?.clone();
+            return Err(Error { cause, location });
+        };
         let param = if is_name_char(c) {
             self.consume_char();
 
